@@ -29,6 +29,38 @@ class LinearSum(sp.Function):
             return sp.Integer(0)
 
 
+class Restrict(sp.Function):
+    """x[mask] read: the generic element of the part of `x` selected by the boolean condition.  A later sum over the
+    filtered axis runs over the selected elements only, i.e. it is the full sum of the indicator-weighted summand."""
+    nargs = (2,)
+
+    def _eval_is_extended_real(self):
+        return self.args[0].is_extended_real
+
+    def _eval_is_real(self):
+        return self.args[0].is_real
+
+    def _eval_is_complex(self):
+        return self.args[0].is_complex
+
+
+def strip_restrict(x):
+    conds = []
+    while True:
+        rs = [a for a in x.atoms(Restrict)] if hasattr(x, "atoms") else []
+        if not rs:
+            break
+        for r in rs:
+            conds.append(r.args[1])
+            x = x.xreplace({r: r.args[0]})
+    return x, conds
+
+
+class Sliced(sp.Function):
+    """x[index] where the index selects or re-orders elements (used by the forwarded-input rules)"""
+    nargs = (2,)
+
+
 class Prod(sp.Function):
     nargs = (1, 2)
 
@@ -156,8 +188,12 @@ class Elem:
     def compare(self, e):
         if len(e.ops) != 1:
             self.err("chained comparison", e)
-        l, r = self.expr(e.left), self.expr(e.comparators[0])
         op = e.ops[0]
+        if isinstance(op, (ast.Is, ast.IsNot)):
+            # identity tests (`x is None`) are path facts, not arithmetic: an uninterpreted boolean
+            b = sp.Symbol("IS_" + ast.unparse(e.left) + "_" + ast.unparse(e.comparators[0]))
+            return b if isinstance(op, ast.Is) else sp.Not(b)
+        l, r = self.expr(e.left), self.expr(e.comparators[0])
         table = {ast.Lt: sp.Lt, ast.LtE: sp.Le, ast.Gt: sp.Gt, ast.GtE: sp.Ge, ast.Eq: sp.Eq, ast.NotEq: sp.Ne}
         for k, fn in table.items():
             if isinstance(op, k):
@@ -233,7 +269,8 @@ class Elem:
                 return base  # broadcasting adapter / component selection: same generic element
             m = self.mask_of(sl)
             if m is not None:
-                return base  # masked read: the generic element of the selected part
+                # masked read: the generic element of the selected part (the selection itself is kept only on request)
+                return Restrict(base, m) if getattr(self, "track_restrict", False) else base
             if isinstance(sl, ast.Name) or all(isinstance(x, (ast.Name, ast.Slice, ast.Constant)) for x in elts):
                 return base
             self.err("subscript not modelled", e)
@@ -325,3 +362,84 @@ class Elem:
         if d in ("float", "int"):
             return self.expr(e.args[0])
         self.err(f"call `{d}` not modelled", e)
+
+
+def rebound_inputs(func, names, rule="FWD"):
+    """Every (re)binding of the parameters `names` anywhere in `func` (all branches, path-insensitive), evaluated elementwise
+    with boolean-mask reads kept as Restrict.  -> list of (name, sympy value, statement).  A parameter that is only read
+    yields nothing."""
+    syms = {p: sp.Symbol(p, real=True) for p in func.params}
+    out = []
+
+    class T(Elem):
+        def expr(self, e):
+            # here a slice / index / fancy index is not a broadcasting adapter: it selects or re-orders elements
+            if isinstance(e, ast.Subscript) and ast.unparse(e.slice) not in (":", "...", "()"):
+                m = self.mask_of(e.slice)
+                if m is None:
+                    return Sliced(Elem.expr(self, e.value), sp.Symbol(ast.unparse(e.slice)))
+            if isinstance(e, ast.Call) and isinstance(e.func, ast.Name) and e.func.id in ("list", "tuple") and len(e.args) == 1 and not e.keywords:
+                return self.expr(e.args[0])
+            return Elem.expr(self, e)
+
+        def on_if(self, st):
+            for b in list(st.body) + list(st.orelse):
+                self.stmt(b)
+
+        def assign(self, t, v, st):
+            if isinstance(t, ast.Name) and t.id in names:
+                out.append((t.id, v, st))
+            if isinstance(t, ast.Subscript) and isinstance(t.value, ast.Name) and t.value.id in names:
+                out.append((t.value.id, sp.Symbol("OPAQUE_store"), st))
+                return
+            try:
+                Elem.assign(self, t, v, st)
+            except AnalysisError:
+                pass
+
+        def stmt(self, st):
+            if isinstance(st, ast.Return):
+                return
+            if isinstance(st, (ast.For, ast.While, ast.With, ast.Try)):
+                for b in ast.iter_child_nodes(st):
+                    if isinstance(b, ast.stmt):
+                        self.stmt(b)
+                return
+            if isinstance(st, ast.Expr):
+                return
+            Elem.stmt(self, st)
+
+    E = T(func, syms, rule=rule)
+    E.lenient = True
+    E.track_restrict = True
+    for st in func.node.body:
+        E.stmt(st)
+    return out, syms
+
+
+def selection_keeps_all_relevant(cond, sym):
+    """Is a filter `cond` on the array `sym` harmless for a sum that is linear in sym (only elements equal to 0 are dropped)?"""
+    if not (cond.free_symbols and cond.free_symbols <= {sym}):
+        return False
+    zp = sp.Symbol("zp", positive=True)
+    return all(sp.simplify(cond.subs(sym, v)) == sp.true for v in (zp, -zp))
+
+
+def classify_rebinding(val, sym):
+    """'same' (value-preserving), 'different' (provably another value), 'unknown' (not modelled)"""
+    if val is None or isinstance(val, (bool, int, float, str)):
+        return "different"
+    if not hasattr(val, "free_symbols"):
+        return "unknown"
+    if val.has(Sliced):
+        return "different"
+    if any(str(x).startswith("OPAQUE_") for x in val.free_symbols) or val.atoms(sp.core.function.AppliedUndef):
+        return "unknown"
+    if val == sym:
+        return "same"
+    try:
+        if sp.simplify(val - sym) == 0:
+            return "same"
+    except (TypeError, AttributeError):
+        return "unknown"
+    return "different"
